@@ -1,5 +1,6 @@
 SPECIFICATION Spec
 CONSTANTS N = 2
+ WithInline = TRUE
  Transitive = FALSE
 INVARIANTS FiniteSize
 CHECK_DEADLOCK FALSE
